@@ -249,7 +249,7 @@ func (g *goTranslator) call(n *ast.CallExpr, old bool, bound map[string]goVar) g
 		g.imports["unsafe"] = true
 		g.needAlias = true
 		return goVal{src: fmt.Sprintf("govc%s(%s, %s)", strings.Title(name), tr(0).src, tr(1).src), typ: boolT}
-	case "fresh", "ptr", "buflen", "bufat", "bufopen", "eqbytes", "oldbytes", "forallb", "existsb", "forallint", "existsint", "instant", "clock", "visited", "forallkey", "existskey", "oncedone", "allocated", "sent", "closed", "lastsent", "samekey", "forallstr", "existsstr":
+	case "fresh", "ptr", "buflen", "bufat", "bufopen", "eqbytes", "oldbytes", "forallb", "existsb", "forallint", "existsint", "instant", "clock", "visited", "forallkey", "existskey", "oncedone", "allocated", "deepeq", "sent", "closed", "lastsent", "samekey", "forallstr", "existsstr":
 		g.failf("builtin %s has no run-time counterpart", name)
 	}
 	// spec function
